@@ -21,7 +21,7 @@ if [ $d0 -eq 0 ] && [ $d1 -eq 1 ] && echo "$suite" | grep -q " passed" && ! echo
 import json,sys
 try: m=json.load(open(sys.argv[1]))
 except Exception as e: m={"meta_error":str(e)}
-m["origin"]="independent sub-agent (rounds 4-6) given only the property text and a scratch worktree (no access to /verif)"
+m["origin"]="independent sub-agent (rounds 4-7) given only the property text and a scratch worktree (no access to /verif)"
 m["confirmed"]={"how":"fresh scratch worktree of /repo HEAD under /tmp (removed afterwards): demo.py before the patch, plain git apply patch.diff, demo.py after, full test suite with the patch","suite_with_patch":sys.argv[3],"demo_without_patch":"exit 0","demo_with_patch":"exit 1"}
 json.dump(m,open(sys.argv[2],"w"),indent=1)
 PY
